@@ -146,4 +146,25 @@ pub fn vec_concat<T>(a: Vec<T>, b: Vec<T>) -> (r: Vec<T>)
 pub fn vec_one<T: Copy>(x: T) -> (r: Vec<T>)
     ensures r@ == seq![x]
 { let mut v = Vec::new(); v.push(x); v }
+// ---- rule R24: Vec::sort_by with a comparator that orders by a real-valued key --------------------------
+pub open spec fn cmp3(a: real, b: real) -> core::cmp::Ordering {
+    if a < b { core::cmp::Ordering::Less } else if a == b { core::cmp::Ordering::Equal } else { core::cmp::Ordering::Greater }
+}
+/// on the elements of s, whatever the comparator answers is the three-way comparison of their keys
+pub open spec fn cmp_by_key<T, F: Fn(&T, &T) -> core::cmp::Ordering>(f: F, key: spec_fn(T) -> real, s: Seq<T>) -> bool {
+    forall|i: int, j: int, o: core::cmp::Ordering| 0 <= i < s.len() && 0 <= j < s.len() && #[trigger] f.ensures((&s[i], &s[j]), o) ==> o == cmp3(key(s[i]), key(s[j]))
+}
+pub open spec fn sorted_by_key<T>(s: Seq<T>, key: spec_fn(T) -> real) -> bool {
+    forall|i: int, j: int| 0 <= i <= j < s.len() ==> key(#[trigger] s[i]) <= key(#[trigger] s[j])
+}
+/// `v.sort_by(f)` (std contract, ASSUMED): a permutation; if the comparator is the three-way comparison of a
+/// real-valued key on the elements (hence a total preorder), the result is in non-decreasing key order
+#[verifier::external_body]
+pub fn vec_sort_by<T, F: Fn(&T, &T) -> core::cmp::Ordering>(v: &mut Vec<T>, f: F)
+    requires forall|i: int, j: int| 0 <= i < old(v)@.len() && 0 <= j < old(v)@.len() ==> #[trigger] f.requires((&old(v)@[i], &old(v)@[j])),
+    ensures final(v)@.len() == old(v)@.len(),
+        final(v)@.to_multiset() == old(v)@.to_multiset(),
+        forall|x: T| final(v)@.contains(x) <==> old(v)@.contains(x),
+        forall|key: spec_fn(T) -> real| #[trigger] cmp_by_key(f, key, old(v)@) ==> sorted_by_key(final(v)@, key),
+{ v.sort_by(|a, b| f(a, b)) }
 } // mod seqs
